@@ -59,6 +59,14 @@ CHECKS = {
   technique="Coq proof (padding shape/injectivity generic over the sponge; Tip5 absorb/squeeze/hash_varlen refinement; fuelled rejection-sampling specification) + differential correspondence with a recording sponge and directly set Tip5 states",
   text="13 theorems C15_* (props/C15.v), nothing partial: pad = input ++ [1] ++ fewest zeros to a multiple of the rate, injective; pad_and_absorb_all absorbs exactly that for any sponge; variable- and fixed-length initial states differ in the capacity; hash_varlen; sample_indices returns the low bits of successive squeezed elements skipping exactly p-1 and leaves the state after the fewest squeezes; sample_scalars groups in threes. Tied by 1076 (quick) / 13k (thorough) cases x 2 profiles with rejected elements placed at chosen positions.",
   note="Termination of rejection sampling for the concrete permutation is not provable: stated with fuel. sample_indices with a zero or non-power-of-two bound is out of scope (release and checked builds differ there by design of debug_assert)."),
+ "C16": dict(
+  technique="Coq proof (bit-trick lemmas by induction on the binary representation, loop termination within fuel 64, agreement with an explicit post-order forest of perfect trees) about index functions REGENERATED from shared_basic.rs / shared_advanced.rs + hand models of the looping ones + exhaustive small-scope and pattern correspondence in two profiles",
+  text="28 theorems C16_* (props/C16.v), nothing partial: for all leaf counts / indices below 2^63 (u64 node indices where documented) every index function (children, siblings, leftmost ancestor, leaf<->node index, node count, local tree index and peak index, right-lineage lengths, node heights, parent, peaks, nodes added by an append, authentication path indices) neither overflows nor panics and equals the structural answer read off the explicitly constructed forest numbered in post-order. The nine straight-line functions are re-translated and re-proved on every run; the eight looping ones are hand models tied by exhaustive sweeps to 2^10 leaf counts plus bit patterns (33k cases x 2 profiles).",
+  note="Node index 0 and leaf counts >= 2^63 are outside the documented domain (observed: garbage / non-termination in release, panic in checked) and are excluded by hypotheses. Extra extraction directive: Z.pow -> zarith."),
+ "C18": dict(
+  technique="Coq proof (psi tables regenerated and checked by vm_compute; linearity + 64 basis vectors + multiplicativity of evaluation at the roots of X^64+1; KEM decapsulation characterised as re-encryption with SHAKE256/SHA3 as section variables) + differential correspondence incl. 50/2000 full KEM runs with a Keccak inside the oracle",
+  text="16 theorems C18_* (props/C18.v): ring multiplication = negacyclic convolution modulo X^64+1 for ALL pairs, coset NTT/INTT evaluate at / interpolate from the 64 roots and are mutually inverse, the three module multiplication strategies agree, ciphertext array round trip, embed/extract correct below the lane-noise threshold, decapsulation accepts exactly re-encryptions (a tampered ciphertext is rejected unless it is itself an honest encapsulation of the payload it decrypts to), unrelated keys. dec(enc) = key is proved under the lane-noise bound (PARTIAL by nature: the probability of the bound is a cryptographic estimate).",
+  note="Modelled on field VALUES, relying on C01 for the base-field operations. SHAKE256 / SHA3-256 are oracles (section variables); the oracle's Keccak is tied to the sha3 crate by the xof and KEM cases. debug_assert shape checks of module products are not modelled."),
 }
 
 ORDER = ["C%02d" % i for i in range(1, 21)]
